@@ -346,7 +346,7 @@ def fault_histories(inst, kinds, keys=None):
                 out.append((i2, t["key"], kind, fs.History(i2, [("run", None)], label="task %s fails: %s" % (t["key"], kind))))
     return out
 
-ALLFAULTS = ["exit_before_write", "exit_after_partial", "exit_after_all", "sigkill_self", "sigkill_shell", "skip_output"]
+ALLFAULTS = ["exit_before_write", "exit_after_partial", "exit_after_all", "sigkill_self", "sigterm_self", "sigint_self", "sigkill_shell", "skip_output"]
 
 def run_fault_cases(R, insts, kinds, chk):
     cases = []
@@ -576,6 +576,18 @@ def check_C09(tier):
             bad = [r for r in rr.cmdlog if r["tag"] == "S" and (r["key"] == "a:2_" or "v*x" in r["key"])]
             if bad: chk.violation("a command with an empty / invalid value was executed: %s" % bad, dict(instance=inst))
             chk.nontrivial.add("unformable:" + label)
+    # a task of a process nobody reads from any more (its consumer stopped: the other in-port closed earlier) fails late
+    for kind in ("exit_after_all", "skip_output"):
+        inst = zoo.Z5c(n=3, m=1, mx=3); inst["name"] = "Z5cLATE"; inst["faults"] = {"a:a3": kind}; inst["ctl"] = {"a:a3.sleep": "0.8"}
+        rr = fc.real_runs(inst, [dict(env={}, bufsize=2, timeout=30)])[0]
+        chk.evaluations += 1
+        if rr.timeout or rr.deadlock:
+            chk.violation("workflow hangs when a surplus task of an abandoned upstream process fails (%s)" % kind, dict(instance=inst))
+        elif rr.rc == 0 or rr.completed:
+            chk.violation("task a:a3 (surplus task of a process whose consumer has stopped reading) was made to fail late (%s) but the workflow exited with status %s, completion reported=%s"
+                          % (kind, rr.rc, rr.completed), dict(instance=inst, stderr=rr.stderr[-300:]))
+        else:
+            chk.nontrivial.add("late-failure:" + kind)
     # an invalid character in a DIRECTORY component of an output path (parameter value used as directory name)
     inst = zoo.Z1(n=3); inst["name"] = "ZPD"; inst["feeds"] = [dict(to="a.p", values=["u", "0.1,0.2", "w"])]
     for p in inst["procs"]:
